@@ -421,6 +421,11 @@ func runC14Round(t *fw.T) {
 		}
 	}
 	t.Distinct(fp.String())
+	if t.Index < 2 {
+		j := makeJob(st.seed, jobs[0][0])
+		t.Sample(map[string]any{"stratum": "concurrent-rounds", "goroutines": G, "jobs_per_goroutine": per, "first_job": describeJob(j), "first_job_source": clip(j.Src, 200),
+			"start_tickets (goroutine:ticket)": clip(fp.String(), 200)})
+	}
 }
 
 func describeJob(j *JobSpec) string {
